@@ -162,7 +162,9 @@ type verifOp struct {
 	do func(m *Multi, g *verifGrid, quality bool) (skip bool, err error)
 }
 
-func verifQL(l byte, q int) alphabet.QLetter { return alphabet.QLetter{L: alphabet.Letter(l), Q: alphabet.Qphred(q)} }
+func verifQL(l byte, q int) alphabet.QLetter {
+	return alphabet.QLetter{L: alphabet.Letter(l), Q: alphabet.Qphred(q)}
+}
 
 func verifOps() []verifOp {
 	var ops []verifOp
@@ -221,28 +223,30 @@ func verifOps() []verifOp {
 		}})
 	}
 	for _, where := range []int{seq.Start, seq.End, seq.Start | seq.End} {
-		where := where
-		ops = append(ops, verifOp{fmt.Sprintf("Flush(%d)", where), func(m *Multi, g *verifGrid, quality bool) (bool, error) {
-			m.Flush(where, '-')
-			start, end := g.span()
-			for i := range g.rows {
-				r := &g.rows[i]
-				if where&seq.Start != 0 && r.off > start {
-					pad := make([]alphabet.QLetter, r.off-start)
-					for k := range pad {
-						pad[k] = alphabet.QLetter{L: '-'}
+		for _, fill := range []alphabet.Letter{'-', 'n'} { // the fill letter need not be the alphabet's gap
+			where, fill := where, fill
+			ops = append(ops, verifOp{fmt.Sprintf("Flush(%d,%c)", where, fill), func(m *Multi, g *verifGrid, quality bool) (bool, error) {
+				m.Flush(where, fill)
+				start, end := g.span()
+				for i := range g.rows {
+					r := &g.rows[i]
+					if where&seq.Start != 0 && r.off > start {
+						pad := make([]alphabet.QLetter, r.off-start)
+						for k := range pad {
+							pad[k] = alphabet.QLetter{L: fill}
+						}
+						r.ls = append(pad, r.ls...)
+						r.off = start
 					}
-					r.ls = append(pad, r.ls...)
-					r.off = start
-				}
-				if where&seq.End != 0 {
-					for r.off+len(r.ls) < end {
-						r.ls = append(r.ls, alphabet.QLetter{L: '-'})
+					if where&seq.End != 0 {
+						for r.off+len(r.ls) < end {
+							r.ls = append(r.ls, alphabet.QLetter{L: fill})
+						}
 					}
 				}
-			}
-			return false, nil
-		}})
+				return false, nil
+			}})
+		}
 	}
 	// the widest range every row covers, shrunk by one at the left when possible
 	common := func(g *verifGrid) (int, int, bool) {
